@@ -15,6 +15,27 @@ CHECKS = {
 		note='Trusts the harness oracle (vlib/refmodel/kmer.py). Native code is tested as the generated C translation compiled by gcc (Cython is not available in the sandbox to re-translate an edited .pyx).',
 		design='DESIGN.md §4 C07',
 	),
+	'C01': dict(
+		category='exploration',
+		technique='exhaustive short strings x small specs + Hypothesis fragment-built sequences vs a definitional both-strand k-mer finder (reference model)',
+		text='Every string up to length 6 (quick) / 8 (thorough) over two 4-letter alphabets for 18 (k,prefix) specs is compared with a definitional scan of both strands, which settles off-by-one errors in either search bound and the reverse slice for short inputs completely; generated multi-sequence inputs (arbitrary bytes, overlapping/self-overlapping/palindromic prefixes, hits flush with either end, k up to 32) are run through all four input types and all accumulators and compared value-for-value, dtype and order.',
+		note='Trusts vlib/refmodel/kmer.py (literal reverse-complement strand, Python-int base-4 code). Dense accumulator only for k<=12 (4^k bytes). Native encoders tested as the existing C translation.',
+		design='DESIGN.md §4 C01',
+	),
+	'C02': dict(
+		category='exploration',
+		technique='exhaustive subset pairs x 36 dtype pairs + Hypothesis-generated boundary-straddling sets vs exact integer ratio rounded once to binary32 (bit compare)',
+		text='All ordered pairs of subsets of a 6/8-element universe in all 36 dtype combinations, plus generated pairs (patterns: equal, disjoint, nested, interleaved, same last, prefix, empty; universes straddling 2^15/2^16/2^31/2^32/2^63 and ending at the top of the wider type; strided views; both argument orders) are compared bit-for-bit with an integer-arithmetic round-half-even oracle; jaccard() must be one minus that distance.',
+		note='Trusts vlib/refmodel/jaccard.py. Sets >= 2^24 elements are not built. Signed arrays hold non-negative values only (documented precondition).',
+		design='DESIGN.md §4 C02',
+	),
+	'C15': dict(
+		category='exploration',
+		technique='exhaustive triples of subsets (5/7-element universe) + Hypothesis-generated perturbed set triples checked against the metric axioms (invariant oracle)',
+		text='Range, identity of indiscernibles, d=1 iff disjoint, bit-exact symmetry, triangle inequality (slack 2^-22), width independence and strict decrease on adding a fresh k-mer are asserted for every ordered triple of subsets of a small universe in three width assignments, and for generated triples of related sets up to 2000 elements.',
+		note='Axioms are checked on the values returned by gambit.metric.jaccarddist; exactness of each value is C02. Strict decrease asserted only for |AuB| < 2^11 where the exact decrease exceeds binary32 resolution.',
+		design='DESIGN.md §4 C15',
+	),
 }
 
 NOT_APPLICABLE = {}
